@@ -37,9 +37,9 @@ class solved_maze_init:
     props = ["C05", "C03", "C09"]
 
 
-@contract(MD, "MazeDataset.__init__", assumed=True, notes="trusted: stores its three arguments (mazes as a list); super().__init__() of torch Dataset has no effect")
+@contract(MD, "MazeDataset.__init__", notes="verified against its body; trusted: super().__init__() of torch Dataset has no effect")
 class maze_dataset_init:
-    params = dict(cfg=CFG, mazes=T.ListT(SOLVED), generation_metadata_collected=T.Const(None))
+    params = dict(self=T.RecT("MazeDataset"), cfg=CFG, mazes=T.ListT(SOLVED), generation_metadata_collected=T.Const(None))
     ensures = {
         "mazes.len": "len(result.mazes) == len(mazes)",
         "mazes": "forall(lambda k: same_grid(result.mazes[k].connection_list, mazes[k].connection_list) and same_grid(result.mazes[k].solution, mazes[k].solution)"
